@@ -30,3 +30,4 @@ func verifParam(name string) int
 func verifPreemptBound(n int)
 func verifDeepEqual(a, b interface{}) bool
 func verifFreeze(root interface{})
+func verifDeepEqualExcept(a, b interface{}, skip string) bool
